@@ -74,6 +74,8 @@ func (C10) Explore(x *kernel.Explorer, seed uint64) {
 				kind := "tok"
 				if r.Chance(1, 3) {
 					kind = "detok"
+				} else if r.Chance(1, 12) {
+					kind = "maint"
 				}
 				pool := c10Pool[tt]
 				plan.Ops = append(plan.Ops, kernel.Op{ID: id, Proc: p, Kind: kind,
@@ -191,7 +193,7 @@ var c10Model = porcupine.Model{
 }
 
 // e-mail-shaped: one '@' with something on both sides
-var c10EmailRe = regexp.MustCompile(`^[^@]+@[^@]+$`)
+var c10EmailRe = regexp.MustCompile(`^[^@]+@[^@.]([^@]*[^@.])?$`)
 
 // c10Shape checks that token has the type and shape of value (both text).
 func c10Shape(tt common.TokenType, value, token string) string {
@@ -357,6 +359,23 @@ func (C10) Run(t *testing.T, plan *kernel.Plan, keepLog bool) *kernel.Result {
 								Input:  c10In{Kind: "tok", Key: fmt.Sprintf("%s|%d|%s", client, tt, value), Value: value},
 								Output: out})
 						}
+					case "maint":
+						// maintenance between requests: every token is disabled and
+						// enabled again in one go (no request sees the disabled state);
+						// afterwards everything must be as before
+						for _, action := range []common.TokenAction{common.TokenDisable, common.TokenEnable} {
+							act := action
+							err, pv := Guard(func() error {
+								return store.VisitMetadata(func(int, common.TokenMetadata) (common.TokenAction, error) { return act, nil })
+							})
+							if pv != nil {
+								w.Violate("C10", "no-panic", site+"/maintenance", fmt.Sprint(pv))
+							} else if err != nil {
+								w.Violate("C10", "maintenance-succeeds", storeName, err.Error())
+							}
+						}
+						w.Probe("maintenance-disable-enable")
+						w.EndOp(proc, "maint")
 					case "detok":
 						// a token somebody was given, or an unknown one
 						var tok string
